@@ -800,6 +800,7 @@ class JsonConverter(Converter):
     def validate(converter, val, obj=None):
         if obj is None or converter.attr is None:
             return val
+        if isinstance(val, Json): val = val.wrapped  # the wrapper only marks a value as JSON; what is stored and tracked is the wrapped value
         if isinstance(val, TrackedValue) and val.obj_ref() is obj and val.attr is converter.attr:
             return val
         return TrackedValue.make(obj, converter.attr, val)
